@@ -20,6 +20,7 @@ func init() {
 	reg("C09", "C09.R5", "E2", "Router.Fail forwards the event to the dead queue under the availability test and does nothing else", 1, ruleRouterFail)
 	reg("C09", "C09.R7", "E6", "the dead queue a pipeline is given is its own: per-pipeline plugin settings are never stored through the registry's shared entry", 2, ruleRegistryEntriesShared)
 	reg("C09", "C09.R8", "E6", "an error is passed on with the status code of the call that failed (the retry / final decision reads that code)", 2, ruleStatusOfFailingCall)
+	reg("C09", "C09.R9", "E2+E3", "a batch given up to the dead queue still takes its commit turn in order: sequenced commit region (same rule as C01.R5)", 1, ruleSequencedRegion)
 	reg("C09", "C09.R6", "E2", "send-before-commit in the worker (same rule as C01.R4)", 1, ruleSendBeforeCommit)
 }
 
